@@ -9,6 +9,7 @@
    algorithm of flatten_bundles.py with its collision errors, `flatname`, the renaming loop and `replace_bundle_conn`. *)
 From Coq Require Import String.
 Require Import Hdl21.Base.PyInt Hdl21.Spec.BundleSpec Hdl21.Model.BundleFlat Hdl21.Proofs.BundleProofs.
+Require Import Hdl21.Model.C10Build Hdl21.Proofs.C10BuildProofs.
 Require Import Hdl21Gen.C10Tables.
 Open Scope string_scope.
 Open Scope list_scope.
@@ -292,3 +293,100 @@ Example C10_ex_not_wf :
   wf_tree (BT "b" false 0 None [L_in "a"; L_out "a"] []) = false /\
   flatten_bundle_inst true (BT "b" false 0 None [L_in "a"; L_out "a"] []) = Error EName.
 Proof. split; reflexivity. Qed.
+
+(* ================= strengthening round: the members of a definition after a construction HISTORY =================
+   The flattener reads `Bundle.signals` and `Bundle.bundles`.  Model/C10Build.v follows bundle.py in how those two
+   containers come about: `build cls ops` for one definition built by the additions `ops` (cls = one class body handed to
+   @h.bundle; otherwise Bundle.add / attribute assignment, both of which end in `_add`), `resolve h` for a whole tree of
+   definitions each with its history.  The SPECIFICATION is by name: `last_write k ws` = the last write to the name k;
+   `writes cls ops` = the writes that count (every assignment of a class body; in a procedural history those that were not
+   refused as being no Bundle attribute).  All theorems hold for EVERY history. *)
+
+(* 8. the members are exactly what each name was LAST given: a scalar member k exists iff the last write to k was a Signal
+      (and then it is that Signal), a sub-bundle member iff it was a BundleInstance; a name last given a value that is no
+      attribute (class body) is no member; an earlier value of either kind is never left behind *)
+Theorem C10_members_last_write cls ops k :
+  find_leaf k (fst (build cls ops)) = final_sig k (writes cls ops) /\
+  find_sub k (snd (build cls ops)) = final_sub k (writes cls ops).
+Proof. split; [apply build_sigs|apply build_subs]. Qed.
+Print Assumptions C10_members_last_write.
+
+Theorem C10_no_stale_member cls ops :
+  (forall l, In l (fst (build cls ops)) <-> last_write (lname l) (writes cls ops) = Some (MSig l)) /\
+  (forall t, In t (snd (build cls ops)) <-> last_write (bname t) (writes cls ops) = Some (MSub t)).
+Proof.
+  split.
+  - intros l. rewrite build_sig_In. unfold final_sig.
+    destruct (last_write (lname l) (writes cls ops)) as [[l'|t'|j]|]; split; intros H; inversion H; reflexivity.
+  - intros t. rewrite build_sub_In. unfold final_sub.
+    destruct (last_write (bname t) (writes cls ops)) as [[l'|t'|j]|]; split; intros H; inversion H; reflexivity.
+Qed.
+Print Assumptions C10_no_stale_member.
+
+(* 9. whatever the history, the two containers hold every name at most once, and no name in both *)
+Theorem C10_members_distinct cls ops :
+  snodup (map lname (fst (build cls ops)) ++ map bname (snd (build cls ops))) = true.
+Proof. apply inv_snodup. apply inv_build. Qed.
+Print Assumptions C10_members_distinct.
+
+(* 10. hence every tree of definitions that the public API can build is well-formed: the hypothesis `wf_tree` of theorems
+       0-7 is met by construction, for every history at every level *)
+Theorem C10_built_tree_wf h : wf_tree (resolve h) = true.
+Proof. apply resolve_wf. Qed.
+Print Assumptions C10_built_tree_wf.
+
+(* 11. the flattened ports of an instance of a definition with a history are those of its FINAL members: one per leaf path of
+       the resolved tree, in order, never failing on a collision - and at the top level the leaf paths are exactly the names
+       last given a Signal, and the paths through the names last given a BundleInstance *)
+Theorem C10_history_one_port_per_leaf port h :
+  exists sc, flatten_bundle_inst port (resolve h) = Ok sc /\ map fst sc = paths (resolve h) /\
+             forall p f, In (p, f) sc -> exists insts l, walk p (resolve h) = Some (insts, l) /\ fwidth f = lwidth l.
+Proof. apply C10_one_port_per_leaf. apply resolve_wf. Qed.
+Print Assumptions C10_history_one_port_per_leaf.
+
+Theorem C10_history_paths n cf nf r cls ops k q :
+  let ws := writes cls (map mop_of ops) in
+  In (k :: q) (paths (resolve (HT n cf nf r cls ops))) <->
+  match q with
+  | [] => exists l, final_sig k ws = Some l
+  | _ :: _ => exists t, final_sub k ws = Some t /\ In q (paths t)
+  end.
+Proof.
+  cbv zeta. rewrite resolve_eq, paths_eq, in_app_iff. set (mops := map mop_of ops). split.
+  - intros [H|H].
+    + apply in_map_iff in H. destruct H as [l [E Hl]]. inversion E; subst. exists l.
+      apply build_sig_In in Hl. exact Hl.
+    + apply psubs_in in H. destruct H as [s [q' [Hs [E Hq]]]]. inversion E; subst.
+      pose proof (paths_nonempty _ _ Hq) as Hne. destruct q' as [|x q']; [congruence|].
+      exists s. split; [apply build_sub_In in Hs; exact Hs|exact Hq].
+  - destruct q as [|x q].
+    + intros [l H]. left. rewrite <- build_sigs in H. apply find_leaf_some in H. destruct H as [Hl <-].
+      apply in_map_iff. exists l. split; [reflexivity|exact Hl].
+    + intros [t [H Hq]]. right. rewrite <- build_subs in H. apply find_sub_some in H. destruct H as [Ht <-].
+      apply psubs_intro; assumption.
+Qed.
+Print Assumptions C10_history_paths.
+
+(* the seeded history: member d, first a 4 bit output, re-added as the differential pair Pn *)
+Definition ex_pn (n : string) : btree := BT n false 0 None [L_out "p"; L_out "n"] [].
+Definition ex_bus_ops : list mop := [MSig (L_in "clk"); MSig (Build_leaf "d" 4 true DOut None None); MSub (ex_pn "d")].
+
+Example C10_ex_history_members :
+  build false ex_bus_ops = ([L_in "clk"], [ex_pn "d"]) /\
+  build true ex_bus_ops = ([L_in "clk"], [ex_pn "d"]) /\
+  (* the reverse order: the pair first, then the bus *)
+  build false [MSub (ex_pn "d"); MSig (L_in "clk"); MSig (Build_leaf "d" 4 true DOut None None)] =
+    ([L_in "clk"; Build_leaf "d" 4 true DOut None None], []) /\
+  (* a class body keeps the place of the first assignment, forgets values that are no attributes *)
+  build true [MSig (L_in "a"); MSig (L_in "b"); MJunk "a"; MSig (L_out "a"); MJunk "b"] = ([L_out "a"], []) /\
+  build false [MSig (L_in "a"); MSig (L_in "b"); MJunk "a"; MSig (L_out "a"); MJunk "b"] = ([L_out "a"; L_in "b"], []).
+Proof. repeat split. Qed.
+
+Example C10_ex_history_flattened :
+  exists sc ns',
+    replace_bundle_inst flatname_maxlen true
+      (resolve (HT "bus" true 0 None false
+                   [OSig (L_in "clk"); OSig (Build_leaf "d" 4 true DOut None None);
+                    OSub (HT "d" false 0 None false [OSig (L_out "p"); OSig (L_out "n")])])) [] = Ok (sc, ns') /\
+    map (fun e => (fname (snd e), fwidth (snd e), fdir (snd e))) sc = [("bus_clk", 1, DOut); ("bus_d_p", 1, DIn); ("bus_d_n", 1, DIn)].
+Proof. do 2 eexists. split; vm_compute; reflexivity. Qed.
